@@ -36,11 +36,12 @@ theorem sweep_order_as_modelled :
     NV.Gen.C09.sweepOrder = ["period_test", "save_context", "setjmp", "walk", "reset", "pop_context"] := by decide
 
 /-- `removeInteractive` / `netDeadHook` / `freeConnOf`: CLOSING tested, then set, then net_dead under safe_apply, the
-    console shutdown request, then the record is freed and pointer and slot are cleared -/
+    console shutdown request, then the pending events of the record are cleared, the record is freed and pointer and slot
+    are cleared -/
 theorem remove_interactive_order_as_modelled :
     NV.Gen.C09.removeInteractiveOrder =
-      ["test_closing", "set_closing", "net_dead", "shutdown", "shutdown", "free", "clear_pointer", "clear_slot",
-       "free_object"] := by decide
+      ["test_closing", "set_closing", "net_dead", "shutdown", "shutdown", "clear_pending", "free", "clear_pointer",
+       "clear_slot", "free_object"] := by decide
 
 /-- `serveCommand`: process_input, VALIDATE_IP, the command, VALIDATE_IP, the prompt -/
 theorem user_command_order_as_modelled :
@@ -52,5 +53,141 @@ theorem user_command_order_as_modelled :
 theorem connect_order_as_modelled :
     NV.Gen.C09.connectOrder =
       ["add_ref_master", "connect", "rejected", "bind", "clear_master", "free_master", "add_ref_user"] := by decide
+
+/-- `setHeartBeat` (removal): only while a round is running (`num_hb_to_do != 0`) the round's position and length are
+    adjusted - `index <= heart_beat_index` is the model's `i < hbNext` (hbNext = heart_beat_index + 1), `index < num_hb_to_do`
+    is `i < hbToDo` -/
+theorem hb_remove_as_modelled :
+    NV.Gen.C09.hbRemoveStmts =
+      ["if (num_hb_to_do)",
+       "if (index <= heart_beat_index)",
+       "heart_beat_index--;",
+       "if (index < num_hb_to_do)",
+       "num_hb_to_do--;"] := by decide
+
+/-- `callHeartBeat` / `hbRound` / `hbLoop`: the round covers the entries present at its start, runs only when there is
+    one, starts at index 0, stops when `++heart_beat_index == num_hb_to_do` (`hbNext = hbToDo`), resets both to 0 and clears
+    `current_heart_beat` before the sweeps -/
+theorem hb_round_as_modelled :
+    NV.Gen.C09.hbRoundStmts =
+      ["num_hb_to_do = num_hb_objs;",
+       "if ((MAIN_OPTION(timer_flags) & TIMER_FLAG_HEARTBEAT) && (num_hb_to_do > 0))",
+       "heart_beat_index = 0;",
+       "current_heart_beat = ob;",
+       "if (++heart_beat_index == num_hb_to_do)",
+       "if (heart_beat_index < num_hb_to_do)",
+       "heart_beat_index = num_hb_to_do = 0;",
+       "current_heart_beat = 0;"] := by decide
+
+/-- `timerSweeps` / `sweepResets`: `current_time < next_time` skips the sweep, the period is `Gen.sweepPeriod`, an object
+    is reset when `next_reset < current_time` (strictly) and O_RESET_STATE is clear -/
+theorem sweep_tests_as_modelled :
+    NV.Gen.C09.sweepStmts =
+      ["if (current_time < next_time)",
+       "next_time = current_time + 15 * 60;",
+       "if ((ob->flags & O_WILL_RESET) && (ob->next_reset < current_time) && !(ob->flags & O_RESET_STATE))"] := by decide
+
+/-- `scanUsers`: at most `max_users` slots are looked at, the turn flag is tested, the cursor steps DOWN and wraps from 0
+    to `max_users - 1` (both after a miss and after taking a command) -/
+theorem cursor_as_modelled :
+    NV.Gen.C09.cursorStmts =
+      ["s_next_user = 0;",
+       "for (i = 0; i < max_users; i++)",
+       "if (ip->iflags & HAS_CMD_TURN)",
+       "if (s_next_user-- == 0)",
+       "s_next_user = max_users - 1;",
+       "if (s_next_user-- == 0)",
+       "s_next_user = max_users - 1;"] := by decide
+
+/-- `startup` / `cycleBody` / `commandLoop`: the start-up steps are numbered (each runs once), the command loop runs
+    while a command was processed and `i < connected_users` -/
+theorem backend_loop_as_modelled :
+    NV.Gen.C09.backendLoopStmts =
+      ["startup_step = 0;",
+       "if (startup_step == 0)",
+       "startup_step = 1;",
+       "if (startup_step == 1)",
+       "startup_step = 2;",
+       "connected_users = 0;",
+       "connected_users++;",
+       "for (i = 0; process_user_command () && i < connected_users; i++)"] := by decide
+
+/-- `newInteractive` / `firstFree`: the search starts at slot 1 and stops below `max_users`; the table grows by
+    `Gen.userChunk` when `i >= max_users` -/
+theorem slot_search_as_modelled :
+    NV.Gen.C09.slotSearchStmts =
+      ["for (i = 1; i < max_users; i++)",
+       "if (i >= max_users)",
+       "new_max_users = max_users + 50;",
+       "while (max_users < new_max_users)"] := by decide
+
+/-- `processIoEvents` / `ioEvent` / `processIo`: every reported event is looked at, the record is validated before
+    use, error / hang-up is handled before reading, the record is re-validated through the object after get_user_data, the
+    console flush is guarded by `all_users && all_users[0]` -/
+theorem process_io_as_modelled :
+    NV.Gen.C09.processIoStmts =
+      ["if (g_num_io_events > 0)",
+       "for (i = 0; i < g_num_io_events; i++)",
+       "if (!ip->ob || (ip->ob->flags & O_DESTRUCTED) || ip->ob->interactive != ip)",
+       "if (evt->event_type & (EVENT_ERROR | EVENT_CLOSE))",
+       "if ((user_ob->flags & O_DESTRUCTED) || user_ob->interactive != ip)",
+       "if (all_users && all_users[0])"] := by decide
+
+/-- `removeInteractive` / `netDeadHook` / `freeConnOf`: CLOSING guard, net_dead only when not destructed, console test,
+    pending events of this poll round that point to the record are cleared before it is freed, the slot is searched in
+    the whole table -/
+theorem remove_tests_as_modelled :
+    NV.Gen.C09.removeStmts =
+      ["if (ip->iflags & CLOSING)",
+       "if (!dested)",
+       "if (!dested)",
+       "if (ip != all_users[0])",
+       "if (MAIN_OPTION(console_mode) && ip == all_users[0])",
+       "for (idx = 0; idx < g_num_io_events; idx++)",
+       "if (g_io_events[idx].context == ip)",
+       "for (idx = 0; idx < max_users; idx++)",
+       "if (all_users[idx] == ip)"] := by decide
+
+/-- inventory of EVERY place in backend.c, error_context.c, comm.c and call_out.c where the driver itself starts LPC code
+    (file : function : call : what), in source order.  Modelled: connect (own recovery point - `mudlibConnect`), logon
+    (unprotected: an error unwinds to backend() - `logonHook`, `abandoned`), heart_beat (`hbLoop`), the master's error_handler
+    (errors re-enter error_handler - `callMasterHandler`), process_input x2 of process_user_command (`inputStage`), net_dead
+    (safe_apply - `netDeadHook`), both call_out forms (per-entry recovery point - `sweepCallOuts`).  Not modelled (see
+    not_covered): clean_up, preload/epilog (before backend()), receive_snoop, the three telnet callbacks (safe_apply, C13),
+    process_input of the ASCII port in get_user_data, input_to/get_char callback, write_prompt, address-server callbacks,
+    notify_fail closure.  A NEW site - protected or not - changes this list and breaks the obligation. -/
+theorem apply_sites_as_modelled :
+    NV.Gen.C09.applySites =
+      ["backend.c:mudlib_connect:safe_apply_master_ob:APPLY_CONNECT",
+       "backend.c:mudlib_logon:apply:APPLY_LOGON",
+       "backend.c:look_for_objects_to_swap:apply:APPLY_CLEAN_UP",
+       "backend.c:call_heart_beat:call_function:ob->prog",
+       "backend.c:preload_objects:apply_master_ob:APPLY_EPILOG",
+       "backend.c:preload_objects:apply_master_ob:APPLY_PRELOAD",
+       "error_context.c:mudlib_error_handler:apply_master_ob:APPLY_ERROR_HANDLER",
+       "error_context.c:mudlib_error_handler:apply_master_ob:APPLY_ERROR_HANDLER",
+       "comm.c:receive_snoop:apply:APPLY_RECEIVE_SNOOP",
+       "comm.c:copy_chars:safe_apply:APPLY_TERMINAL_TYPE",
+       "comm.c:copy_chars:safe_apply:APPLY_WINDOW_SIZE",
+       "comm.c:copy_chars:safe_apply:APPLY_TELNET_SUBOPTION",
+       "comm.c:process_user_command:apply:APPLY_PROCESS_INPUT",
+       "comm.c:process_user_command:apply:APPLY_PROCESS_INPUT",
+       "comm.c:get_user_data:apply:APPLY_PROCESS_INPUT",
+       "comm.c:get_user_data:apply:APPLY_PROCESS_INPUT",
+       "comm.c:remove_interactive:safe_apply:APPLY_NET_DEAD",
+       "comm.c:call_function_interactive:call_function_pointer:funp",
+       "comm.c:print_prompt:apply:APPLY_WRITE_PROMPT",
+       "comm.c:query_addr_number:apply:call_back",
+       "comm.c:query_addr_number:apply:call_back",
+       "comm.c:query_addr_number:apply:call_back",
+       "comm.c:got_addr_number:safe_apply:ipnumbertable[i].call_back",
+       "comm.c:notify_no_command:call_function_pointer:p.f",
+       "call_out.c:call_out:apply:cop->function.s",
+       "call_out.c:call_out:call_function_pointer:cop->function.f"] := by decide
+
+/-- every source shape of the repaired code that the model mirrors is present (all_users guard, re-validation through
+    the object, recovery point before the start-up steps, load-average clamp, connect() under its own recovery point,
+    pending events cleared when a record is freed) -/
+theorem guards_present : NV.Gen.C09.guardsPresent = [1, 1, 1, 1, 1, 1] := by decide
 
 end NV.C09
